@@ -490,7 +490,9 @@ def typed_literals(m):
             return any(lit(a) for a in x)
         if isinstance(x, dict):
             return any(lit(a) for a in x.values())
-        return not (x is None or type(x) in (int, float, str, bool, StrSub, IntSub) or callable(x) or isinstance(x, xd.Manager))
+        if type(x) is float:
+            return x != x or x in (float("inf"), float("-inf"))          # nan / inf print as bare names
+        return not (x is None or type(x) in (int, str, bool, StrSub, IntSub) or callable(x) or isinstance(x, xd.Manager))
     return any(lit(t.expr) for t in m.tasks.values() if isinstance(t, ExprTask))
 
 
